@@ -199,28 +199,48 @@ fn bomb(kind: u64, n: usize) -> (String, Dag) {
 /// apply to |source| + |target| and to |source| + |target| + extra cells.
 fn io_bomb_case(case: &mut Case) -> Outcome {
     // (number of nested comps, log2 of the width)
-    let table: [(usize, usize); 9] = [(0, 20), (2, 20), (2, 29), (1, 30), (0, 30), (0, 31), (2, 30), (1, 31), (2, 31)];
+    let table: [(usize, usize); 13] = [(0, 20), (2, 20), (2, 29), (1, 30), (0, 30), (0, 31), (2, 30), (1, 31), (2, 31), (100, 40), (100, 61), (100, 64), (100, 70)];
     let (comps, n) = table[case.idx as usize % table.len()];
-    let name = format!("io-{}-comps-word-2^{}", comps, n);
+    let tower = comps >= 100;
+    let name = if tower { format!("io-tower-2^{}-into-one-bit", n) } else { format!("io-{}-comps-word-2^{}", comps, n) };
     case.hint(&format!("bomb={}", name));
     case.desc = name.clone();
     case.hash = Some(hash_str(&name));
     let mut d = Dag::default();
-    let mut cur = d.push(Op::Iden);
-    for _ in 0..comps {
-        let i = d.push(Op::Iden);
-        cur = d.push(Op::Comp(cur, i));
+    let (w_src, w_tgt, io): (ty::T, ty::T, u128);
+    if tower {
+        // 1 -> 2 : comp (pair^n (injl unit)) (injl unit): the extra cells are astronomically large (they saturate the
+        // machine word beyond 2^64) and the target is one bit wide, so |source| + |target| + extra must not wrap around
+        let u = d.push(Op::Unit);
+        let mut t = d.push(Op::InjL(u));
+        for _ in 0..n {
+            t = d.push(Op::Pair(t, t));
+        }
+        let u2 = d.push(Op::Unit);
+        let out = d.push(Op::InjL(u2));
+        d.push(Op::Comp(t, out));
+        w_src = ty::unit();
+        w_tgt = ty::bit();
+        io = 1;
+    } else {
+        let mut cur = d.push(Op::Iden);
+        for _ in 0..comps {
+            let i = d.push(Op::Iden);
+            cur = d.push(Op::Comp(cur, i));
+        }
+        w_src = ty::word(n);
+        w_tgt = ty::word(n);
+        io = 2 * (1u128 << n);
     }
-    let w = ty::word(n);
-    let typing = match ast::infer(&d, false, Some((&w, &w))) {
+    let w = w_src.clone();
+    let typing = match ast::infer(&d, false, Some((&w_src, &w_tgt))) {
         Ok(t) => t,
         Err(e) => return Outcome::Inconclusive(format!("harness: {} ill-typed {:?}", name, e)),
     };
     let (mc, mf) = model_bounds(&d, &typing);
-    let io = 2 * (1u128 << n);
-    let must_refuse = (1u128 << n) > MAX_CELLS || mc > MAX_CELLS || io > MAX_CELLS || io + mc > MAX_CELLS || mf + 2 > MAX_FRAMES;
+    let must_refuse = (!tower && (1u128 << n) > MAX_CELLS) || mc > MAX_CELLS || io > MAX_CELLS || io + mc > MAX_CELLS || mf + 2 > MAX_FRAMES;
     let order = ast::natural_order(&d);
-    let redeem = match guard(|| prog::build_redeem(&d, &order, &[], Some((&w, &w)), Root::Free)) {
+    let redeem = match guard(|| prog::build_redeem(&d, &order, &[], Some((&w, &w_tgt)), Root::Free)) {
         Ok(Ok(r)) => r,
         Ok(Err(e)) => return violated("well-typed-program-rejected", format!("{}: {}", name, e)),
         Err(pn) => return violated("panic:bounds-arithmetic", format!("building `{}` panicked: {}", name, pn)),
@@ -320,7 +340,7 @@ fn bomb_case(case: &mut Case) -> Outcome {
 pub fn run(ctx: &Ctx) {
     let t = ctx.tier;
     ctx.run_sub("limit-bombs", Plan::enumerate(34, 0.2), |_rng, case| bomb_case(case));
-    ctx.run_sub("limit-bombs-wide-io", Plan::enumerate(9, 0.05), |_rng, case| io_bomb_case(case));
+    ctx.run_sub("limit-bombs-wide-io", Plan::enumerate(13, 0.05), |_rng, case| io_bomb_case(case));
     ctx.run_sub("nested-programs", Plan::sample(t.pick(25_000, 1_200_000), 0.4), |rng, case| {
         let fuel = rng.urange(6, t.pick(40, 120));
         exec_case(rng, case, &TyParams { max_width: 48, max_depth: 4, max_word_n: 4 }, fuel, true)
